@@ -1,15 +1,16 @@
 import Shuttle.Model.Reuse
+import Shuttle.Lemmas.ReuseHeap
 /-!
 # C15 — a tracer instance can be reused without cross-talk
 
 `C15_fresh_equiv`: for every history of successful and failing traces on one instance
 (started in *any* state), each call returns what a fresh instance returns.
 
-Partial: the second half of the property ("paths returned earlier are never modified by
-later calls") is about object identity / aliasing, which this value-level model does not
-express; it is carried by the correspondence check (earlier results are deep-copied at
-return time and re-compared after every later call) and by the regenerated
-`TracerShape.returnsCopy` / `initResetsTrace` flags proved true below.
+`C15_no_retro_mutation`: the second half of the property ("paths returned earlier are
+never modified by later calls") on the model with object identity (Model/ReuseHeap.lean:
+list and action objects, in-place `append` / `add_waypoint`, shallow copy on return): what a
+caller sees through a returned list is the same after any further history of successful
+and failing calls.
 -/
 namespace Shuttle.Props.C15
 open Shuttle
@@ -60,5 +61,109 @@ example :
     let g : Grid := ⟨[1], [], some 0, some 0⟩
     (runHistory Sel.isSlice .init [[.setLoc g], [.move g], [.setLoc g, .move g]]).map C15.ok? =
       [some [.way [g]], none, some [.way [g, g]]] := by decide
+
+
+
+/-! ## results handed out earlier are never modified (object identity) -/
+
+theorem hInit_eq (s : HState) :
+    s.initialize = { s with lists := s.lists ++ [[]], trace := s.lists.length, cur := none } := by
+  simp [HState.initialize, C15_shape.1, C15_shape.2.1]
+
+/-- a call changes no object that existed before it -/
+theorem hcall_frame (static : Sel → Bool) (s s1 : HState) (ops : List Op) (r : Except TErr Nat) (hw : WFH s)
+    (h : hcall static s ops = (r, s1)) :
+    FrozenAt s.lists.length s.acts.length s s1 ∧ WFH s1 ∧
+      ∀ lid, r = .ok lid → lid < s1.lists.length := by
+  unfold hcall at h
+  simp only [C15_shape.2.2.2, C15_shape.2.2.1, if_true, hInit_eq] at h
+  have ho : Own s.lists.length s.acts.length
+      { s with lists := s.lists ++ [[]], trace := s.lists.length, cur := none } :=
+    ⟨Nat.le_refl _, by simp, by intro a ha; simp [List.getD] at ha, by simp, Nat.le_refl _⟩
+  have hw0 : WFH { s with lists := s.lists ++ [[]], trace := s.lists.length, cur := none } := by
+    intro l hl a ha
+    rcases List.mem_append.1 hl with hl | hl
+    · exact hw l hl a ha
+    · simp at hl; subst hl; simp at ha
+  have f0 : FrozenAt s.lists.length s.acts.length s
+      { s with lists := s.lists ++ [[]], trace := s.lists.length, cur := none } :=
+    ⟨by simp, Nat.le_refl _, fun j hj => by simp [List.getElem?_append_left hj], fun _ _ => rfl⟩
+  generalize hr : hrun static { s with lists := s.lists ++ [[]], trace := s.lists.length, cur := none } ops = res at h
+  obtain ⟨rr, s'⟩ := res
+  obtain ⟨_, f1⟩ := hrun_frame static _ _ ops _ s' rr ho hr
+  have hw1 := hrun_wf static ops _ s' rr hw0 hr
+  cases rr with
+  | error e =>
+    simp only [Prod.mk.injEq] at h
+    obtain ⟨rfl, rfl⟩ := h
+    exact ⟨f0.trans f1, hw1, by intro lid h; cases h⟩
+  | ok x =>
+    simp only [Prod.mk.injEq] at h
+    obtain ⟨rfl, rfl⟩ := h
+    refine ⟨f0.trans (f1.trans ⟨by simp, Nat.le_refl _, ?_, fun _ _ => rfl⟩), ?_, ?_⟩
+    · intro j hj
+      have : j < s'.lists.length := Nat.lt_of_lt_of_le hj (Nat.le_trans f0.ll f1.ll)
+      simp [List.getElem?_append_left this]
+    · intro l hl a ha
+      rcases List.mem_append.1 hl with hl | hl
+      · exact hw1 l hl a ha
+      · simp only [List.mem_singleton] at hl
+        subst hl
+        simp only [List.getD] at ha
+        cases hg : s'.lists[s'.trace]? with
+        | none => simp [hg] at ha
+        | some l' =>
+          simp only [hg, Option.getD_some] at ha
+          exact hw1 l' (List.mem_of_getElem? hg) a ha
+    · intro lid h
+      simp only [Except.ok.injEq] at h
+      subst h
+      simp
+
+/-- a whole further history changes no object that existed before it -/
+theorem hhistory_frame (static : Sel → Bool) : ∀ (hist : List (List Op)) (s : HState), WFH s →
+    FrozenAt s.lists.length s.acts.length s (hhistory static s hist).2 := by
+  intro hist
+  induction hist with
+  | nil => intro s _; exact FrozenAt.refl _ _ _
+  | cons ops rest ih =>
+    intro s hw
+    simp only [hhistory]
+    generalize hc : hcall static s ops = c
+    obtain ⟨r, s1⟩ := c
+    obtain ⟨f1, hw1, _⟩ := hcall_frame static s s1 ops r hw hc
+    have f2 := (ih s1 hw1).weaken f1.ll f1.al
+    exact f1.trans f2
+
+/-- **Paths returned earlier are never modified by later calls**: if a call on an instance (in any well-formed state)
+returns list object `lid`, then after any further history of calls on the same instance — successful or failing,
+any kernels, any arguments — the path seen through `lid` is exactly what it was when it was returned. -/
+theorem C15_no_retro_mutation (static : Sel → Bool) (s s1 : HState) (hw : WFH s) (ops : List Op) (lid : Nat)
+    (h : hcall static s ops = (.ok lid, s1)) (later : List (List Op)) :
+    (hhistory static s1 later).2.view lid = s1.view lid := by
+  obtain ⟨_, hw1, hl⟩ := hcall_frame static s s1 ops (.ok lid) hw h
+  have hlid := hl lid rfl
+  refine view_stable _ _ s1 _ lid (hhistory_frame static later s1 hw1) hlid ?_
+  intro a ha
+  simp only [List.getD] at ha
+  cases hg : s1.lists[lid]? with
+  | none => simp [hg] at ha
+  | some l' =>
+    simp only [hg, Option.getD_some] at ha
+    exact hw1 l' (List.mem_of_getElem? hg) a ha
+
+theorem wfh_fresh : WFH HState.fresh := by
+  intro l hl a ha
+  simp [HState.fresh] at hl
+  subst hl
+  simp at ha
+
+/-- non-vacuity: a call, then a failing call and a call that moves — the first result still reads the same -/
+example :
+    let g : Grid := ⟨[1], [], some 0, some 0⟩
+    let c1 := hcall Sel.isSlice HState.fresh [.setLoc g, .move g]
+    c1.1.toOption = some 2 ∧
+    (hhistory Sel.isSlice c1.2 [[.move g], [.setLoc g, .move g, .move g]]).2.view 2 = [.way [g, g]] := by
+  decide +kernel
 
 end Shuttle.Props.C15
